@@ -238,6 +238,12 @@ func wireClassifier(p *core.Program, withPath bool) func(fn *ssa.Function, in ss
 				}
 			}
 		}
+		if fn.Synthetic != "" {
+			// bound-method wrapper / thunk: it is its target
+			if sf := core.StaticFn(call); sf != nil && sf.Blocks != nil {
+				return atomDecision{kind: akInline, inline: sf}
+			}
+		}
 		if cls, ok := codecClass[name]; ok {
 			// column codec: atom with access path, never inlined
 			sig := cc.Signature()
